@@ -5,7 +5,7 @@ MC_SetupUsesPlannerRng == EnvBool("V_SETUP_PLANNER_RNG", TRUE)
 MC_TakeAfterChecks == EnvBool("V_TAKE_AFTER_CHECKS", TRUE)
 
 Emit ==
-  (MC_Emit /\ pc' = "idle" /\ res'.kind # "none" /\ (pc = "loop" \/ ncalls' # ncalls)) =>
+  (MC_Emit /\ ((EmitAll /\ Len(hist') > Len(hist) /\ hist'[Len(hist')].c = "it") \/ (pc' = "idle" /\ res'.kind # "none" /\ (pc = "loop" \/ ncalls' # ncalls)))) =>
      PrintT(<<"HIST", ToJson([planner |-> "rrtc", topo |-> MC_T, maxd |-> MC_MaxDist, rad2 |-> 0, lvs |-> MC_Lvs,
                              bias |-> MC_Bias, seeded |-> MC_Seeded, worlds |-> worlds, probs |-> probs,
                              calls |-> hist'])>>)
